@@ -255,7 +255,7 @@ def stream(ck):
     # the edges on which that Option is None: a switch on its discriminant, or on is_none()/is_some() of it
     none_edges = []
     for sw in T.switches_on_expr(cl, lambda e: e[0] == "discr"):
-        e = cl.expr(cl.blocks[sw]["term"]["on"])
+        e = cl.expr(cl.blocks[sw]["term"]["on"], at=sw)
         if is_payload({"c": e[2]}):
             none_edges += T.discr_edges(cl, sw, 0)
     for c2 in T.calls(cl, name=("is_none", "is_some")):
@@ -286,7 +286,7 @@ def stream(ck):
         blk = inloop[0]
         pend_edges = []
         for sw in T.switches_on_expr(cl, lambda e: e[0] == "discr"):
-            e = cl.expr(cl.blocks[sw]["term"]["on"])
+            e = cl.expr(cl.blocks[sw]["term"]["on"], at=sw)
             if any(r == ("call", p0.bb) and not p_ for r, p_ in cl.resolve(e[2])):
                 pend_edges += T.discr_edges(cl, sw, 1)  # std::task::Poll::Pending
         early = []
